@@ -541,9 +541,185 @@ fn run_xloop(driver: DriverType, prog: &[XStep]) -> Result<String, (String, Stri
     Ok(sig)
 }
 
+
+// ---------------------------------------------------------------------------------------------
+// Thread-pool completions: a blocking-pool job (op::Asyncify) that FINISHES at every named step
+// inside Driver::poll. The pool thread publishes the result and wakes the driver exactly like any
+// foreign thread; while the driver is "awake" that wake-up is only a flag, so the driver itself has
+// to look at the finished jobs before it sleeps again. Oracle: after the call that contained the
+// finish, one blocking poll delivers the job's outcome (pop() is Ready) -- found missing by the
+// seeded change C02-c m1 (finished jobs were only looked at after the wait).
+// ---------------------------------------------------------------------------------------------
+
+struct JobGate {
+    open: std::sync::Mutex<bool>,
+    cv: std::sync::Condvar,
+    entered: std::sync::atomic::AtomicBool,
+    left: std::sync::atomic::AtomicBool,
+}
+
+/// (driver, first call, point index) -> Ok(signature) / Err((key, detail)); `None` point = the job
+/// finishes between the two calls
+fn run_poolwake(driver: DriverType, first: Call, point: Option<usize>) -> Result<(String, usize), (String, String)> {
+    use std::sync::atomic::Ordering::SeqCst;
+    let mut p = build(driver);
+    let _ = p.poll(Some(Duration::ZERO));
+    let gate = std::sync::Arc::new(JobGate { open: Default::default(), cv: Default::default(), entered: Default::default(), left: Default::default() });
+    let g = gate.clone();
+    let op = compio_driver::op::Asyncify::new(move || {
+        g.entered.store(true, SeqCst);
+        let mut o = g.open.lock().unwrap();
+        while !*o {
+            o = g.cv.wait(o).unwrap();
+        }
+        drop(o);
+        g.left.store(true, SeqCst);
+        compio_buf::BufResult(Ok(7usize), ())
+    });
+    let key = match p.push(op) {
+        compio_driver::PushEntry::Pending(k) => k,
+        compio_driver::PushEntry::Ready(_) => return Err(("harness".into(), "Asyncify completed at push".into())),
+    };
+    // the job must be parked on the gate before the program starts (flush hands it to the pool)
+    let _ = p.flush();
+    let t = Instant::now();
+    while !gate.entered.load(SeqCst) {
+        if t.elapsed() > Duration::from_secs(5) {
+            return Err(("harness".into(), "pool job did not start within 5 s".into()));
+        }
+        let _ = p.poll(Some(Duration::ZERO));
+        std::thread::sleep(Duration::from_micros(200));
+    }
+    let finish = {
+        let gate = gate.clone();
+        move || {
+            *gate.open.lock().unwrap() = true;
+            gate.cv.notify_all();
+            let t = Instant::now();
+            while !gate.left.load(SeqCst) && t.elapsed() < Duration::from_secs(2) {
+                std::thread::sleep(Duration::from_micros(100));
+            }
+            // the pool thread publishes the result and wakes the driver right after the closure
+            // returned; too short a pause only makes this run miss the case, never a false alarm
+            std::thread::sleep(Duration::from_millis(3));
+        }
+    };
+    let npoints = Rc::new(Cell::new(0usize));
+    let at: Rc<RefCell<Option<&'static str>>> = Rc::new(RefCell::new(None));
+    {
+        let (np, at, f) = (npoints.clone(), at.clone(), finish.clone());
+        verif::set_on_point(Some(Box::new(move |name| {
+            let n = np.get();
+            np.set(n + 1);
+            if point == Some(n) {
+                *at.borrow_mut() = Some(name);
+                f();
+            }
+        })));
+    }
+    let _ = match first {
+        Call::P0 => p.poll(Some(Duration::ZERO)),
+        _ => p.poll(Some(T_BLOCK)),
+    };
+    verif::set_on_point(None);
+    let points = npoints.get();
+    if point.is_none() {
+        finish();
+    } else if at.borrow().is_none() {
+        // point not reached: finish now so that the pool thread is not left parked
+        finish();
+        let _ = p.poll(Some(T_BLOCK_LONG));
+        return Ok(("point-not-reached".into(), points));
+    }
+    // the loop runs its tasks and comes back to sleep: this wait must deliver the outcome
+    let t0 = Instant::now();
+    let mut key = Some(key);
+    let mut delivered_after = None;
+    for round in 0..2 {
+        if round == 1 {
+            let _ = p.poll(Some(T_BLOCK_LONG));
+        }
+        match p.pop(key.take().unwrap()) {
+            compio_driver::PushEntry::Ready(r) => {
+                if !matches!(r.0, Ok(7)) {
+                    return Err(("pool-completion-wrong-result".into(), format!("{:?}", r.0.map_err(|e| e.kind()))));
+                }
+                delivered_after = Some(round);
+                break;
+            }
+            compio_driver::PushEntry::Pending(k) => key = Some(k),
+        }
+    }
+    let el = t0.elapsed();
+    let name = (*at.borrow()).unwrap_or("between-calls");
+    match delivered_after {
+        // delivered, but only when the wait timed out: the loop slept on a finished job
+        Some(1) if el > T_BLOCK_LONG / 3 => Err((
+            format!("pool-completion-slept-on:{name}"),
+            format!("driver {driver:?}: a thread-pool job finished at `{name}` of {first:?}; the following poll({} ms) slept {} ms before delivering its outcome", T_BLOCK_LONG.as_millis(), el.as_millis()),
+        )),
+        Some(r) => Ok((format!("{name}|delivered-by-{}", if r == 0 { "the-call-itself" } else { "the-next-wait" }), points)),
+        None => Err((
+            format!("pool-completion-undelivered:{name}"),
+            format!("driver {driver:?}: a thread-pool job finished at `{name}` of {first:?}; the following poll({} ms) returned after {} ms without delivering its outcome (pop() still pending)", T_BLOCK_LONG.as_millis(), el.as_millis()),
+        )),
+    }
+}
+
+fn poolwake_family(rep: &Report) {
+    // thread-pool completions at every point inside poll
+    rep.must_reach("pool-job-finished-inside-poll");
+    {
+        let mut pitems: Vec<(DriverType, Call, Option<usize>)> = Vec::new();
+        for d in [DriverType::IoUring, DriverType::Poll] {
+            for first in [Call::P0, Call::B] {
+                let n = match run_poolwake(d, first, Some(usize::MAX)) {
+                    Ok((_, n)) => n,
+                    Err((k, m)) => vcore::machinery_error(&format!("poolwake probe: {k}: {m}")),
+                };
+                pitems.push((d, first, None));
+                pitems.extend((0..n).map(|i| (d, first, Some(i))));
+            }
+        }
+        vcore::par_for_each_n(&pitems, vcore::threads().min(8), |_, (d, first, point)| {
+            let mut r = run_poolwake(*d, *first, *point);
+            rep.add_execution(3);
+            rep.add_states(1);
+            if r.is_err() {
+                // real threads and real time: confirm before reporting
+                let r2 = run_poolwake(*d, *first, *point);
+                if r2.is_ok() {
+                    rep.count("unconfirmed-timing-anomalies", 1);
+                    r = r2;
+                }
+            }
+            match r {
+                Ok((sig, _)) => {
+                    if point.is_some() && sig != "point-not-reached" {
+                        rep.count("pool-job-finished-inside-poll", 1);
+                    }
+                    rep.outcome(format!("poolwake|{d:?}|{first:?}|{sig}"));
+                }
+                Err((key, detail)) if key == "harness" => vcore::machinery_error(&format!("poolwake: {detail}")),
+                Err((key, detail)) => rep.violation(Violation {
+                    key: format!("{d:?}:{key}"),
+                    what: detail,
+                    replay: json!({"engine":"e_c03","family":"poolwake","driver":format!("{d:?}"),"first":format!("{first:?}"),"point":format!("{point:?}")}),
+                }),
+            }
+        });
+    }
+}
+
 fn main() {
     let args = vcore::parse_args();
     let rep = Report::new(&args.property, args.tier);
+    if args.property == "C02" {
+        // C02 rides on one family only: the outcome of a finished thread-pool job is delivered
+        rep.rule("thread-pool job (op::Asyncify) finishing at every named step inside Driver::poll of both drivers, then one blocking wait: the outcome must be delivered without sleeping on it");
+        poolwake_family(&rep);
+        rep.finish();
+    }
     let depth = args.tier.pick(3, 4);
     let progs = programs(depth);
     let mut items: Vec<(DriverType, bool, Vec<Call>)> = Vec::new();
@@ -606,6 +782,7 @@ fn main() {
             }
         }
     });
+    poolwake_family(&rep);
     // completion-produced wake-ups
     rep.must_reach("completion-reaped-while-pushing");
     let oprogs = ops_programs(args.tier.pick(5, 6));
